@@ -215,6 +215,9 @@ func Supervise(a SuperArgs) int {
 		}
 	}
 	replayDir := filepath.Join(a.VerifDir, "replays")
+	if d := os.Getenv("VERIF_EVIDENCE_DIR"); d != "" {
+		replayDir = filepath.Join(d, "replays")
+	}
 	sort.SliceStable(res.Violations, func(i, j int) bool { return res.Violations[i].Sig < res.Violations[j].Sig })
 	newVio := 0
 	knownSeen := map[string]int64{}
@@ -302,9 +305,13 @@ func Supervise(a SuperArgs) int {
 		ev["assumptions"] = []string{}
 	}
 	delete(cov, "assumptions")
-	os.MkdirAll(filepath.Join(a.VerifDir, "evidence"), 0o755)
+	evDir := filepath.Join(a.VerifDir, "evidence")
+	if d := os.Getenv("VERIF_EVIDENCE_DIR"); d != "" {
+		evDir = d // runs against scratch copies must not overwrite the evidence of /repo
+	}
+	os.MkdirAll(evDir, 0o755)
 	eb, _ := json.MarshalIndent(ev, "", " ")
-	os.WriteFile(filepath.Join(a.VerifDir, "evidence", a.Prop+".json"), append(eb, '\n'), 0o644)
+	os.WriteFile(filepath.Join(evDir, a.Prop+".json"), append(eb, '\n'), 0o644)
 
 	fmt.Printf("SUMMARY property=%s tier=%s seed=%d cases=%d distinct_nontrivial=%v violations=%d known=%d wall=%.1fs\n",
 		a.Prop, a.Tier, a.Seed, res.Cases, cov["distinct_nontrivial"], unknownTotal, len(knownSeen), time.Since(start).Seconds())
